@@ -163,6 +163,10 @@ ycall(side_t *s, int c) {
       int fl = c == Y_EXCL_A ? (O_CREAT | O_EXCL | O_WRONLY | O_APPEND) : c == Y_TRUNC_A ? (O_CREAT | O_TRUNC | O_WRONLY | O_APPEND) : c == Y_OPEN_RD_A ? O_RDONLY : (O_CREAT | O_WRONLY | O_APPEND);
       int fd;
       if (s->fd >= 0) return -1000; /* slot busy: the call is skipped on both sides */
+      /* stated abstraction of the model: O_TRUNC replaces the NAME by a fresh file (so that every file is
+         append-only in the journal); truncating a file that has a second hard link would be seen through the
+         other link on a real kernel.  lcdb never does that (it links only immutable tables); skipped here. */
+      if (c == Y_TRUNC_A && stat(a, &st) == 0 && st.st_nlink > 1) return -1000;
       fd = open(c == Y_CREAT_B ? b : c == Y_OPEN_DIR_A ? da : a, fl, 0644);
       if (fd >= 0) { s->fd = fd; r = 0; } else r = -1;
       break;
